@@ -18,10 +18,11 @@ import (
 type C19Case struct {
 	Schema m.BodyM        `json:"schema"`
 	Items  []gen.DualItem `json:"items"`
+	Layout []int          `json:"layout,omitempty"` // hand-made JSON layout (empty: regular indentation)
 }
 
 func genC19(g gen.G) C19Case {
-	return C19Case{Schema: g.RefSchemaSimple(), Items: g.DualConfig()}
+	return C19Case{Schema: g.RefSchemaSimple(), Items: g.DualConfig(), Layout: g.Layout()}
 }
 
 func flattenAbs(ts reference.Targets, depth int, out *[]string) int {
@@ -119,7 +120,7 @@ func checkC19(c C19Case) Result {
 		return SafeBuild(func() *world.World { return world.Build(wm) })
 	}
 	native := gen.RenderNative(c.Items, "")
-	jsonText := gen.RenderJSON(c.Items)
+	jsonText := gen.RenderJSONLayout(c.Items, c.Layout)
 	wn, pi := mk(m.FileM{Name: "main.tf", Text: native})
 	if pi != nil {
 		r.Exclude("library-panic(C01)")
